@@ -1,11 +1,260 @@
 /-
-  C09 — pattern matching binds exactly what construction would produce (property theorems).
+  C09 — pattern matching binds exactly what construction would produce.
+
+  Property theorems only (helper lemmas: Arrai/C09/Lemmas.lean, Arrai/C09/Refine.lean).
+  Part 1: the specification.  `Matches ρ p v σ` = the pattern `p`, read as an expression with the names bound as in
+          `σ`, rebuilds `v`, and `σ` binds exactly the names of `p`.  `Spec.bind` decides it; matches are unique.
+  Part 2: the transliterated Go matcher (`Impl.bind`: ArrayPattern/TuplePattern/DictPattern/SetPattern/ExprPattern/
+          ExprsPattern/IdentPattern/ExtraElementPattern.Bind + Scope.MatchedUpdate, as repaired) computes `Spec.bind`
+          on supported patterns; hence it is sound and complete for `Matches`, never panics there, a non-matching
+          `let`/call is an error, and `cond` takes the first matching arm.
+  Part 3: what is not repaired — decidable classes, partial theorems and refutations of the full statements.
 -/
-import Arrai.C09.Model
+import Arrai.C09.Refine
 
 namespace Arrai.C09.Theorems
 open Arrai Arrai.C09
 
-theorem placeholder : (1 : Nat) = 1 := rfl
+/-! ### Part 1 — the specification -/
+
+/-- matching inverts construction: the array view of a constructed array gives its items back -/
+theorem array_view_inverts_construction (xs : List V) : asArr (mkArr xs) = some xs := asArr_mkArr xs
+
+theorem array_view_only_constructed (v : V) (xs : List V) : asArr v = some xs ↔ v = mkArr xs := asArr_iff v xs
+
+theorem dict_view_only_constructed (v : V) (kvs : List (V × V)) :
+    asDict v = some kvs ↔ (v = mkDict kvs ∧ (kvs.map (·.1)).Nodup) := asDict_iff v kvs
+
+theorem matches_respects_equiv {ρ σ τ : Env} {p : Pat} {v : V} (h : Matches ρ p v σ) (he : Env.equiv σ τ) :
+    Matches ρ p v τ := by
+  refine ⟨Rebuilds_mono (fun x w hx => by rw [← he x]; exact hx) p v h.1, fun x => ?_⟩
+  rw [← he x]; exact h.2 x
+
+/-- what `Spec.bind` returns is a match -/
+theorem spec_bind_sound (ρ : Env) (p : Pat) (v : V) (σ : Env) (h : Spec.bind ρ p v = some σ) : Matches ρ p v σ :=
+  bind_sound ρ p v σ h
+
+/-- every match of a deterministic pattern is found by `Spec.bind` (up to the order of the bindings) -/
+theorem spec_bind_complete (ρ : Env) (p : Pat) (v : V) (σ : Env) (hd : det p = true) (h : Matches ρ p v σ) :
+    ∃ σ', Spec.bind ρ p v = some σ' ∧ Env.equiv σ' σ := by
+  obtain ⟨s, hb, hle⟩ := bind_complete ρ σ p v hd h.1
+  refine ⟨s, hb, fun x => ?_⟩
+  have hdom := (bind_sound ρ p v s hb).2 x
+  cases hs : s.lookup x with
+  | some w => exact (hle x w hs).symm
+  | none =>
+    rw [hs] at hdom
+    cases hσ : σ.lookup x with
+    | none => rfl
+    | some w =>
+      have := (h.2 x).1 (by simp [hσ])
+      have := hdom.2 this
+      simp at this
+
+theorem spec_bind_iff (ρ : Env) (p : Pat) (v : V) (σ : Env) (hd : det p = true) :
+    (∃ σ', Spec.bind ρ p v = some σ' ∧ Env.equiv σ' σ) ↔ Matches ρ p v σ := by
+  constructor
+  · rintro ⟨σ', hb, he⟩
+    exact matches_respects_equiv (spec_bind_sound ρ p v σ' hb) he
+  · exact spec_bind_complete ρ p v σ hd
+
+/-- a deterministic pattern matches a value in at most one way -/
+theorem bind_unique (ρ : Env) (p : Pat) (v : V) (σ₁ σ₂ : Env) (hd : det p = true)
+    (h₁ : Matches ρ p v σ₁) (h₂ : Matches ρ p v σ₂) : Env.equiv σ₁ σ₂ := by
+  obtain ⟨s₁, hb₁, he₁⟩ := spec_bind_complete ρ p v σ₁ hd h₁
+  obtain ⟨s₂, hb₂, he₂⟩ := spec_bind_complete ρ p v σ₂ hd h₂
+  rw [hb₁] at hb₂
+  cases hb₂
+  intro x
+  rw [← he₁ x, he₂ x]
+
+/-- no match at all when `Spec.bind` finds none -/
+theorem spec_bind_none (ρ : Env) (p : Pat) (v : V) (hd : det p = true) (h : Spec.bind ρ p v = none) :
+    ¬ ∃ σ, Matches ρ p v σ := by
+  rintro ⟨σ, hm⟩
+  obtain ⟨σ', hb, _⟩ := spec_bind_complete ρ p v σ hd hm
+  rw [h] at hb; cases hb
+
+/-- repeated names must agree: `[x, x]` matches `[a, b]` only when `a = b` -/
+theorem repeated_names_agree (ρ σ : Env) (x : String) (a b : V) (hx : x ≠ "_")
+    (h : Matches ρ (.arr [(.name x, none), (.name x, none)]) (mkArr [a, b]) σ) : a = b := by
+  obtain ⟨xs, hv, hi⟩ := (by simpa only [Rebuilds] using h.1 : ∃ xs, mkArr [a, b] = mkArr xs ∧ RItems ρ σ _ xs)
+  have hxs := mkArr_inj hv
+  subst hxs
+  simp only [RItems, restName, Rebuilds, hx, false_or] at hi
+  rcases hi with ⟨x1, t1, h1, ha, hi⟩ | ⟨d, hd, _⟩
+  · simp only [List.cons.injEq] at h1
+    obtain ⟨rfl, rfl⟩ := h1
+    rcases hi with ⟨x2, t2, h2, hb, _⟩ | ⟨d, hd, _⟩
+    · simp only [List.cons.injEq] at h2
+      obtain ⟨rfl, _⟩ := h2
+      rw [ha] at hb
+      exact Option.some.inj hb
+    · cases hd
+  · cases hd
+
+/-! ### Part 2 — the code's matcher on supported patterns -/
+
+/-- supported patterns are deterministic -/
+theorem supported_is_det (ρ : Env) (p : Pat) (h : supported ρ p = true) : det p = true := supported_det ρ p h
+
+/-- the transliterated Go matcher computes the decision procedure of the specification -/
+theorem impl_refines_spec (ρ : Env) (p : Pat) (v : V) (h : supported ρ p = true) :
+    Impl.bind ρ p v = Res.ofOption (Spec.bind ρ p v) := impl_eq ρ p h v
+
+theorem bind_sound_partial (ρ : Env) (p : Pat) (v : V) (σ : Env) (hs : supported ρ p = true)
+    (h : Impl.bind ρ p v = .ok σ) : Matches ρ p v σ := by
+  rw [impl_refines_spec ρ p v hs] at h
+  cases hb : Spec.bind ρ p v with
+  | none => rw [hb] at h; cases h
+  | some s =>
+    rw [hb] at h
+    cases h
+    exact spec_bind_sound ρ p v _ hb
+
+theorem bind_complete_partial (ρ : Env) (p : Pat) (v : V) (σ : Env) (hs : supported ρ p = true)
+    (h : Matches ρ p v σ) : ∃ σ', Impl.bind ρ p v = .ok σ' ∧ Env.equiv σ' σ := by
+  obtain ⟨σ', hb, he⟩ := spec_bind_complete ρ p v σ (supported_det ρ p hs) h
+  exact ⟨σ', by rw [impl_refines_spec ρ p v hs, hb]; rfl, he⟩
+
+/-- no panic on supported patterns -/
+theorem no_panic_partial (ρ : Env) (p : Pat) (v : V) (hs : supported ρ p = true) : Impl.bind ρ p v ≠ .panic := by
+  rw [impl_refines_spec ρ p v hs]
+  cases Spec.bind ρ p v <;> simp [Res.ofOption]
+
+/-- a `let` / call whose pattern does not match is an error — never a value, never a panic -/
+theorem let_mismatch (ρ : Env) (p : Pat) (v : V) (hs : supported ρ p = true) (h : ¬ ∃ σ, Matches ρ p v σ) :
+    Impl.evalLet ρ p v = .err := by
+  unfold Impl.evalLet
+  rw [impl_refines_spec ρ p v hs]
+  cases hb : Spec.bind ρ p v with
+  | none => rfl
+  | some s => exact absurd ⟨s, spec_bind_sound ρ p v s hb⟩ h
+
+theorem bodyVal_equiv {ρ σ τ : Env} (he : Env.equiv σ τ) (ns : List String) : bodyVal ρ σ ns = bodyVal ρ τ ns := by
+  unfold bodyVal
+  have : (fun n => ((σ ++ ρ).lookup n).map (fun v => (n, v))) = (fun n => ((τ ++ ρ).lookup n).map (fun v => (n, v))) := by
+    funext n
+    rw [lookup_append', lookup_append', he n]
+  rw [this]
+
+/-- a `let` / call whose pattern matches evaluates its body under exactly the matching bindings -/
+theorem let_match (ρ : Env) (p : Pat) (v : V) (σ : Env) (hs : supported ρ p = true) (h : Matches ρ p v σ) :
+    Impl.evalLet ρ p v = Res.ofOption (bodyVal ρ σ (bodyNames p)) := by
+  obtain ⟨σ', hb, he⟩ := bind_complete_partial ρ p v σ hs h
+  unfold Impl.evalLet
+  rw [hb]
+  simp only
+  rw [bodyVal_equiv he]
+
+/-- `cond` takes the first arm that matches, with a matching scope; with no matching arm it gives `{}` -/
+theorem cond_first (ρ : Env) (v : V) : ∀ (arms : List Pat) (i : Nat), (∀ p, p ∈ arms → supported ρ p = true) →
+    (∃ pre p post σ, arms = pre ++ p :: post ∧ (∀ q, q ∈ pre → ¬ ∃ τ, Matches ρ q v τ) ∧ Matches ρ p v σ ∧
+        Impl.evalCond ρ v arms i = .ok (some (i + pre.length, σ))) ∨
+    ((∀ q, q ∈ arms → ¬ ∃ τ, Matches ρ q v τ) ∧ Impl.evalCond ρ v arms i = .ok none)
+  | [], i, _ => Or.inr ⟨by simp, rfl⟩
+  | p :: r, i, hs => by
+    have hp := hs p (by simp)
+    have hr : ∀ q, q ∈ r → supported ρ q = true := fun q hq => hs q (List.mem_cons_of_mem _ hq)
+    simp only [Impl.evalCond]
+    rw [impl_refines_spec ρ p v hp]
+    cases hb : Spec.bind ρ p v with
+    | some σ =>
+      left
+      exact ⟨[], p, r, σ, rfl, by simp, spec_bind_sound ρ p v σ hb, by simp [Res.ofOption]⟩
+    | none =>
+      have hno := spec_bind_none ρ p v (supported_det ρ p hp) hb
+      simp only [Res.ofOption]
+      rcases cond_first ρ v r (i + 1) hr with ⟨pre, q, post, σ, he, hpre, hm, hev⟩ | ⟨hall, hev⟩
+      · left
+        refine ⟨p :: pre, q, post, σ, by rw [he]; rfl, ?_, hm, ?_⟩
+        · intro q' hq'
+          rcases List.mem_cons.1 hq' with rfl | hq'
+          · exact hno
+          · exact hpre q' hq'
+        · rw [hev]; simp only [List.length_cons]; congr 3; omega
+      · right
+        refine ⟨?_, hev⟩
+        intro q' hq'
+        rcases List.mem_cons.1 hq' with rfl | hq'
+        · exact hno
+        · exact hall q' hq'
+
+/-- on supported (hence closed) arms the code's `cond` is the specification's -/
+theorem cond_agrees_partial (ρ : Env) (v : V) : ∀ (arms : List Pat) (i : Nat),
+    (∀ p, p ∈ arms → supported ρ p = true ∧ closed ρ p = true) →
+    Impl.evalCond ρ v arms i = Spec.evalCond ρ v arms i
+  | [], _, _ => rfl
+  | p :: r, i, hs => by
+    obtain ⟨hp, hc⟩ := hs p (by simp)
+    simp only [Impl.evalCond, Spec.evalCond, hc, if_true]
+    rw [impl_refines_spec ρ p v hp]
+    cases hb : Spec.bind ρ p v with
+    | some σ => rfl
+    | none =>
+      simp only [Res.ofOption]
+      exact cond_agrees_partial ρ v r (i + 1) (fun q hq => hs q (List.mem_cons_of_mem _ hq))
+
+/-! ### Part 3 — what is not repaired: the full statements fail, with witnesses -/
+
+def bind_sound_full : Prop := ∀ (ρ : Env) (p : Pat) (v : V) (σ : Env), Impl.bind ρ p v = .ok σ → Matches ρ p v σ
+def bind_complete_full : Prop := ∀ (ρ : Env) (p : Pat) (v : V) (σ : Env), det p = true → Matches ρ p v σ →
+  ∃ σ', Impl.bind ρ p v = .ok σ' ∧ Env.equiv σ' σ
+def no_panic_full : Prop := ∀ (ρ : Env) (p : Pat) (v : V), Impl.bind ρ p v ≠ .panic
+def cond_agrees_full : Prop := ∀ (ρ : Env) (v : V) (arms : List Pat), Impl.evalCond ρ v arms 0 = Spec.evalCond ρ v arms 0
+
+/-- KF-dict-fallback-open: `let {2?: y:5} = {1: 1}` binds y = 5 although no reading of the pattern gives `{1: 1}` -/
+theorem bind_sound_full_false : ¬ bind_sound_full := by
+  intro h
+  have hm := h [] (.dict [(.num 2, .name "y", some (.num 5))]) (mkDict [(.num 1, .num 1)]) [("y", .num 5)] (by decide)
+  exact spec_bind_none [] _ _ (by decide) (by decide) ⟨_, hm⟩
+
+/-- KF-pattern-multi-optional: `let [?x:4, ?y:5] = [1]` is rejected although x = 1, y = 5 is its one match -/
+theorem bind_complete_full_false : ¬ bind_complete_full := by
+  intro h
+  have hm : Matches [] (.arr [(.name "x", some (.num 4)), (.name "y", some (.num 5))]) (mkArr [.num 1])
+      [("y", .num 5), ("x", .num 1)] := spec_bind_sound [] _ _ _ (by decide)
+  obtain ⟨σ', hb, _⟩ := h [] _ _ _ (by decide) hm
+  have : Impl.bind [] (.arr [(.name "x", some (.num 4)), (.name "y", some (.num 5))]) (mkArr [.num 1]) = .err := by
+    decide
+  rw [this] at hb; cases hb
+
+/-- KF-setpattern-panic: `let {[x], 2} = {[1], 2}` panics -/
+theorem no_panic_full_false : ¬ no_panic_full := by
+  intro h
+  exact h [] (.set [.arr [(.name "x", none)], .lit (.num 2)]) (.set [mkArr [.num 1], .num 2]) (by decide)
+
+/-- KF-cond-swallows-errors: `cond 5 {(zz): …, _: …}` takes the second arm although `zz` is not defined -/
+theorem cond_agrees_full_false : ¬ cond_agrees_full := by
+  intro h
+  have := h [] (.num 5) [.exprs [.var "zz"], .name "_"]
+  revert this
+  decide
+
+/-- before the repair, `Scope.MatchedUpdate` compared printed forms: whenever two different values print alike
+(as `1` and `'1'` do), a repeated name was accepted with both; the repaired test rejects it -/
+theorem repeated_names_false_before_repair (str : V → String) (a b : V) (hab : a ≠ b) (hstr : str a = str b) :
+    matchedUpdateOld str [("x", a)] [("x", b)] = some [("x", b), ("x", a)] ∧
+    matchedUpdate [("x", a)] [("x", b)] = none := by
+  constructor
+  · simp [matchedUpdateOld, List.lookup, hstr]
+  · rw [matchedUpdate_none_iff]
+    intro hag
+    have := hag "x" a b (by simp [List.lookup]) (by simp [List.lookup])
+    exact hab this.symm
+
+/-! the hypotheses are satisfiable by non-trivial patterns -/
+example : supported [("o", .num 7)]
+    (.arr [(.name "x", none), (.rest "t", none),
+           (.tup [("a", .name "x", none), ("b", .name "y", some (.num 2)), ("", .rest "", none)], none),
+           (.dict [(.num 1, .exprs [.var "o"], none), (.ff, .rest "r", none)], none),
+           (.set [.lit (.num 1), .name "z"], none)]) = true := by decide
+
+example : ∃ σ, Matches [] (.arr [(.name "x", none), (.rest "t", none), (.name "y", none)])
+    (mkArr [.num 1, .num 2, .num 3, .num 4]) σ :=
+  ⟨_, spec_bind_sound [] _ _ _ (by decide : Spec.bind [] _ _ = some [("y", .num 4), ("t", mkArr [.num 2, .num 3]), ("x", .num 1)])⟩
+
+example : ¬ ∃ σ, Matches [] (.arr [(.name "x", none), (.name "x", none)]) (mkArr [.num 1, .num 2]) σ :=
+  spec_bind_none [] _ _ (by decide) (by decide)
 
 end Arrai.C09.Theorems
